@@ -241,20 +241,36 @@ def interference(c):
                 if vcode[tgt].get("owner") == own and vcode[ci].get("owner") == own:
                     succ[i].append(ci + 1)
                     succ[ci].append(tgt)
-    # liveness
+    # liveness; a call of another owner reads the virtual registers that are live at the callee's entry
+    # (values held in variables shared between owners: globals of the main file or of a library module)
+    owners_of = {}
+    for i, ins in enumerate(vcode):
+        for x in defs[i] | uses[i]:
+            owners_of.setdefault(x, set()).add(ins.get("owner"))
+    shared = {x for x, os_ in owners_of.items() if len(os_) > 1}
     live_in = [set() for _ in range(n)]
     live_out = [set() for _ in range(n)]
-    changed = True
-    while changed:
-        changed = False
-        for i in range(n - 1, -1, -1):
-            out = set()
-            for s in succ[i]:
-                out |= live_in[s]
-            inn = uses[i] | (out - defs[i])
-            if out != live_out[i] or inn != live_in[i]:
-                live_out[i], live_in[i] = out, inn
-                changed = True
+    for _round in range(12):
+        changed = True
+        while changed:
+            changed = False
+            for i in range(n - 1, -1, -1):
+                out = set()
+                for s in succ[i]:
+                    out |= live_in[s]
+                inn = uses[i] | (out - defs[i])
+                if out != live_out[i] or inn != live_in[i]:
+                    live_out[i], live_in[i] = out, inn
+                    changed = True
+        grew = False
+        for ci, tgt in calls.items():
+            if vcode[ci].get("owner") != vcode[tgt].get("owner"):
+                extra = (live_in[tgt] & shared) - uses[ci]
+                if extra:
+                    uses[ci] |= extra
+                    grew = True
+        if not grew:
+            break
     probs = []
     phys = lambda x: mapping.get(x, x)
     for i in range(n):
